@@ -62,26 +62,27 @@ type Node struct {
 	DiskOps int
 	CrashAt int // crash when DiskOps reaches this value (0 = never)
 	joiners []*Task
+	hooked  bool
 	Data    map[string]any
 }
 
 // Task is one simulated goroutine.
 type Task struct {
-	sim    *Sim
-	ID     int
-	Name   string
-	Node   *Node
-	state  int32
-	grant  chan struct{}
-	kill   chan struct{}
-	doneCh chan struct{}
-	dead   bool // unwinding: every simulator call is a no-op or an exit
-	killed bool
-	prio   int
-	frozen int // not eligible until sim.contested reaches this value
-	waitOn string
+	sim     *Sim
+	ID      int
+	Name    string
+	Node    *Node
+	state   int32
+	grant   chan struct{}
+	kill    chan struct{}
+	doneCh  chan struct{}
+	dead    bool // unwinding: every simulator call is a no-op or an exit
+	killed  bool
+	prio    int
+	frozen  int // not eligible until sim.contested reaches this value
+	waitOn  string
 	pausing bool
-	g      uintptr
+	g       uintptr
 }
 
 // Dead reports whether the task is being unwound (crashed node / end of run).
@@ -139,26 +140,27 @@ type Sim struct {
 
 	strat strategy
 
-	hash     uint64
-	trace    []string
-	Faults   map[string]int
-	Probes   map[string]int
-	Panics   []PanicInfo
-	failure  *Failure
-	Inconcl  string // non-empty: run was inconclusive (step cap, horizon, deadlock)
-	Infra    string // non-empty: infrastructure error (exit 2)
-	zombies  int
-	start    time.Time
-	SimTime  time.Duration
-	Deadlock bool
-	states   map[uint64]struct{}
-	disk     *DiskState
-	atEnd    []func()
-	seq      int64
-	pausePts []pausePt
-	Pauses   []PauseRec
-	rng      *mrand.Rand
-	Ext      map[string]any
+	hash       uint64
+	trace      []string
+	Faults     map[string]int
+	Probes     map[string]int
+	Panics     []PanicInfo
+	failure    *Failure
+	Inconcl    string // non-empty: run was inconclusive (step cap, horizon, deadlock)
+	Infra      string // non-empty: infrastructure error (exit 2)
+	zombies    int
+	start      time.Time
+	SimTime    time.Duration
+	Deadlock   bool
+	states     map[uint64]struct{}
+	disk       *DiskState
+	deathHooks []func(*Node)
+	atEnd      []func()
+	seq        int64
+	pausePts   []pausePt
+	Pauses     []PauseRec
+	rng        *mrand.Rand
+	Ext        map[string]any
 }
 
 type strategy struct {
@@ -512,7 +514,7 @@ func (s *Sim) spawn(node *Node, name string, fn func()) *Task {
 		grant: make(chan struct{}), kill: make(chan struct{}), doneCh: make(chan struct{})}
 	s.nextID++
 	if s.strat.kind == 2 {
-		t.prio = 1 + s.Tape.Draw(1 << 20)
+		t.prio = 1 + s.Tape.Draw(1<<20)
 	}
 	s.tasks = append(s.tasks, t)
 	node.live++
@@ -936,8 +938,20 @@ func (s *Sim) Wait(x *Task) {
 	}
 }
 
+// OnNodeDeath registers fn to be called (on the scheduler goroutine, no task
+// running) once for every node that dies.
+func (s *Sim) OnNodeDeath(fn func(*Node)) { s.deathHooks = append(s.deathHooks, fn) }
+
 func (s *Sim) reapDeadNodes() {
 	for _, n := range s.nodes {
+		if n.Dead && !n.hooked {
+			n.hooked = true
+			if !s.tearing {
+				for _, fn := range s.deathHooks {
+					fn(n)
+				}
+			}
+		}
 		if n.Dead && n.live > 0 {
 			s.reap(func(t *Task) bool { return t.Node == n })
 		}
